@@ -40,6 +40,28 @@ def run(ctx):
     ctx.rule(nameflow)
     ctx.rule(reductions)
     ctx.rule(wrappers)
+    ctx.rule(no_ambient_settings)
+
+
+def no_ambient_settings(ctx, R="R-C14-nameflow"):
+    """What a module computes is fixed by the NumPy object it was built from and by its arguments - not by process-wide torch
+    settings read when it is built or called (the default dtype: under a float16 / bfloat16 default the window and the filters are
+    quantised and the features no longer equal compute_full to working precision)."""
+    prog = ctx.prog
+    m = prog.module("torch")
+    AMBIENT = ("torch.get_default_dtype", "torch.get_default_device", "torch.is_autocast_enabled", "torch.get_autocast_gpu_dtype", "torch.get_autocast_dtype",
+               "torch.are_deterministic_algorithms_enabled", "torch.get_num_threads", "torch.backends")
+    n = 0
+    for fi in [x for x in prog.functions.values() if x.module is m]:
+        n += 1
+        for c in astq.func_calls(fi):
+            q = prog.qualify(m, c.func, fi) or ""
+            if any(q == a or q.startswith(a + ".") for a in AMBIENT):
+                ctx.bad(R, fi, c, "%s reads the process-wide setting %s(): the parameters and results of a module then depend on what some other code set "
+                        "(e.g. a half-precision default dtype quantises the window and the filters), not on the computer it was built from" % (fi.short, q),
+                        "modules do not read process-wide torch settings", robust=True)
+    ctx.floor(R + "/torch-functions", n, 10)
+    ctx.ok(R, m.rel, "modules do not read process-wide torch settings", "%d functions inspected" % n)
 
 
 def geom_twin(ctx, R="R-C14-geom-twin"):
